@@ -577,9 +577,11 @@ class ISD(model.Document):
 
         isd_element.set_style(initial_style, initial_value)
 
-    # compute style properties
+    # compute style properties, which is not possible (no initial values) nor necessary (no applicable style property)
+    # for Br and Text elements
 
-    ISD._compute_styles(styles_to_be_computed, parent, isd_element)
+    if not isinstance(element, (model.Br, model.Text)):
+      ISD._compute_styles(styles_to_be_computed, parent, isd_element)
 
     # prune element is display is "none"
 
